@@ -240,6 +240,13 @@ def list_method(I_, ref, o, name, args, kws, st, ctx, k, node):
         return k(st, data.pop(i))
       return I_.raise_exc(st, ctx, IndexError, "pop index out of range", node)
     raise Unsupported("list.pop at symbolic index")
+  if name == "popleft" and o.cls is not list:          # collections.deque modelled as a list
+    if not data:
+      return I_.raise_exc(st, ctx, IndexError, "pop from an empty deque", node)
+    return k(st, data.pop(0))
+  if name == "appendleft" and o.cls is not list:
+    data.insert(0, args[0])
+    return k(st, None)
   if name == "remove":
     return list_remove(I_, ref, args[0], st, ctx, k, node)
   if name == "index":
